@@ -16,7 +16,7 @@ from collections import Counter
 
 from . import boot
 from .boot import HarnessError
-from .core import run_seed, rng_for, jdump, finish_plan
+from .core import run_seed, rng_for, jdump, finish_plan, HOST_PLAIN
 
 # property -> list of (world, share of the budget, chunk size)
 REGISTRY = {}
@@ -144,6 +144,9 @@ def work(args):
             agg["runs"] += 1
             agg["faults"].update(r["faults"])
             agg["probes"].update(r["probes"])
+            for hk, hv in HOST_PLAIN.items():
+                if plan.get(hk, hv) != hv:
+                    agg["faults"]["host_state:%s=%s" % (hk, plan[hk])] += 1
             agg["judged"] += r["judged"]
             agg["sim_seconds"] += r["sim_seconds"]
             agg["events"] += r["events"]
@@ -543,7 +546,10 @@ def replay_fresh(path):
 REAL_STUB = {
     "broker": {"real": ["SimulatedBroker", "Portfolio", "PositionHandler", "Position", "Transaction",
                         "PortfolioEvent", "Order", "SimulatedExchange", "ZeroFeeModel", "PercentFeeModel"],
-               "stub": ["QuoteBook data handler (bid != ask, piecewise constant)"]},
+               "stub": ["QuoteBook data handler (bid != ask, piecewise constant; its own mid)",
+                        "fee models on the documented extension points: ticket charge, ZeroFeeModel / PercentFeeModel "
+                        "subclasses that use the optional broker argument",
+                        "asset symbols as str-mixin Enum members / numpy.str_ (some runs)"]},
     "data": {"real": ["CSVDailyBarDataSource", "BacktestDataHandler", "pandas CSV reader"],
              "stub": []},
     "clock": {"real": ["DailyBusinessDaySimulationEngine", "SimulationEvent", "WeeklyRebalance",
@@ -557,12 +563,17 @@ REAL_STUB = {
                          "SimulatedExchange", "CSVDailyBarDataSource", "BacktestDataHandler", "universes",
                          "FixedSignalsAlphaModel", "SingleSignalAlphaModel", "SignalsCollection", "signals"],
                 "stub": ["three signal-driven alpha models written for the harness (the repo ships none "
-                         "outside examples/)"]},
+                         "outside examples/)",
+                         "custom Universe subclasses (members leave; list / tuple / generator returns; forward-only "
+                         "listing calendar)",
+                         "FeeModel subclasses (commission-only, stamp duty, volume tiers counted on fills)"]},
     "rebal": {"real": ["PortfolioConstructionModel", "DollarWeightedCashBufferedOrderSizer",
                        "LongShortLeveragedOrderSizer", "FixedWeightPortfolioOptimiser",
                        "EqualWeightPortfolioOptimiser", "ExecutionHandler", "MarketOrderExecutionAlgorithm",
                        "SimulatedBroker stack", "SimulatedExchange", "StaticUniverse", "DynamicUniverse"],
-              "stub": ["QuoteBook data handler", "scripted alpha model", "scripted universe (some runs)"]},
+              "stub": ["QuoteBook data handler", "scripted alpha model",
+                       "scripted universe returning a list, tuple or generator (some runs)",
+                       "FeeModel subclasses using the optional broker argument (some runs)"]},
 }
 REAL_STUB["pair"] = REAL_STUB["session"]
 REAL_STUB["repeat"] = REAL_STUB["session"]
